@@ -417,6 +417,7 @@ func (c *Ctx) extractTableComposed(fn *ssa.Function, depth int) (*dtable, error)
 	if err != nil || depth > 2 {
 		return tb, err
 	}
+	tb = c.expandTailCalls(tb, depth)
 	// helper calls among the operands of the conditions
 	var target *ssa.Call
 	var visit func(v ssa.Value, d int)
@@ -428,6 +429,17 @@ func (c *Ctx) extractTableComposed(fn *ssa.Function, depth int) (*dtable, error)
 			return
 		}
 		switch x := v.(type) {
+		case *ssa.Extract:
+			// one result of a (value, ok) helper
+			if call, isCall := x.Tuple.(*ssa.Call); isCall {
+				h := call.Call.StaticCallee()
+				if h != nil && !call.Call.IsInvoke() && c.P.isModuleFn(h) && !isProtoPkg(fnPkgPath(h)) && len(h.Blocks) > 0 &&
+					h.Signature.Results().Len() > 1 && len(h.Params) == len(call.Call.Args) && call.Parent() == fn {
+					if _, done := canonSubst[x]; !done {
+						target = call
+					}
+				}
+			}
 		case *ssa.Call:
 			h := x.Call.StaticCallee()
 			if h != nil && !x.Call.IsInvoke() && c.P.isModuleFn(h) && !isProtoPkg(fnPkgPath(h)) && !isPureLeaf(h) && len(h.Blocks) > 0 &&
@@ -480,31 +492,56 @@ func (c *Ctx) extractTableComposed(fn *ssa.Function, depth int) (*dtable, error)
 	}
 	type alt struct {
 		conds []atom
-		res   string
+		res   []string
 	}
+	nres := h.Signature.Results().Len()
 	var alts []alt
 	for _, ir := range inner.rows {
-		if ir.panics || len(ir.results) != 1 {
+		if ir.panics || len(ir.results) != nres {
 			canonSubst = saved
 			return tb, nil
 		}
-		res := strings.TrimPrefix(strings.TrimPrefix(ir.results[0], "expr:"), "const:")
-		if strings.HasPrefix(ir.results[0], "const:") {
-			res = "const(" + res + ")"
+		var rs []string
+		for _, r0 := range ir.results {
+			res := strings.TrimPrefix(strings.TrimPrefix(r0, "expr:"), "const:")
+			if strings.HasPrefix(r0, "const:") {
+				res = "const(" + res + ")"
+			}
+			rs = append(rs, res)
 		}
-		alts = append(alts, alt{ir.conds, res})
+		alts = append(alts, alt{ir.conds, rs})
 	}
 	out := &dtable{fn: fn}
 	for _, al := range alts {
-		with(map[ssa.Value]string{target: al.res})
+		sub := map[ssa.Value]string{}
+		if nres == 1 {
+			sub[target] = al.res[0]
+		} else if target.Referrers() != nil {
+			for _, r := range *target.Referrers() {
+				if ex, ok := r.(*ssa.Extract); ok && ex.Index < len(al.res) {
+					sub[ex] = al.res[ex.Index]
+				}
+			}
+		}
+		with(sub)
 		tk, err := c.extractTableComposed(fn, depth+1)
 		if err != nil {
 			canonSubst = saved
 			return tb, nil
 		}
 		for _, r := range tk.rows {
-			conds := append(append([]atom{}, al.conds...), r.conds...)
+			var conds []atom
 			bad := false
+			for _, a := range append(append([]atom{}, al.conds...), r.conds...) {
+				// a test of a flag the helper answered with a constant: decided
+				switch a.String() {
+				case "const(true)", "!(const(false))":
+					continue
+				case "const(false)", "!(const(true))":
+					bad = true
+				}
+				conds = append(conds, a)
+			}
 			for i := range conds {
 				if contradicts(conds[:i], conds[i]) {
 					bad = true
@@ -518,6 +555,59 @@ func (c *Ctx) extractTableComposed(fn *ssa.Function, depth int) (*dtable, error)
 		}
 	}
 	return out, nil
+}
+
+// expandTailCalls: a row that answers with the result of a small loop-free helper of the module (`return h(args)`)
+// is replaced by the helper's rows, written in terms of the call's arguments.
+func (c *Ctx) expandTailCalls(tb *dtable, depth int) *dtable {
+	out := &dtable{fn: tb.fn}
+	for _, r := range tb.rows {
+		var call *ssa.Call
+		if !r.panics && len(r.vals) == 1 {
+			call, _ = r.vals[0].(*ssa.Call)
+		}
+		var h *ssa.Function
+		if call != nil {
+			h = call.Call.StaticCallee()
+		}
+		if h == nil || call.Call.IsInvoke() || !c.P.isModuleFn(h) || isProtoPkg(fnPkgPath(h)) || len(h.Blocks) < 2 ||
+			h.Signature.Results().Len() != 1 || len(h.Params) != len(call.Call.Args) || h == tb.fn {
+			out.rows = append(out.rows, r)
+			continue
+		}
+		saved := canonSubst
+		m := map[ssa.Value]string{}
+		for k, v := range saved {
+			m[k] = v
+		}
+		for i, pa := range h.Params {
+			m[pa] = canon(call.Call.Args[i])
+		}
+		canonSubst = m
+		inner, err := c.extractTableComposed(h, depth+1)
+		canonSubst = saved
+		if err != nil || len(inner.rows) > 8 {
+			out.rows = append(out.rows, r)
+			continue
+		}
+		for _, ir := range inner.rows {
+			conds := append(append([]atom{}, r.conds...), ir.conds...)
+			bad := false
+			for i := range conds {
+				if contradicts(conds[:i], conds[i]) {
+					bad = true
+				}
+			}
+			if bad {
+				continue
+			}
+			nr := ir
+			nr.conds = conds
+			nr.ret = r.ret
+			out.rows = append(out.rows, nr)
+		}
+	}
+	return out
 }
 
 // ---------------------------------------------------------------- semantic comparison of decision tables
@@ -551,6 +641,12 @@ func parseRow(r string) (prow, bool) {
 			pa.key = a
 		}
 		// conditions on constants
+		if pa.key == "const(true)" || pa.key == "const(false)" {
+			if (pa.key == "const(true)") != pa.pos {
+				return out, false
+			}
+			continue
+		}
 		if j := strings.LastIndex(pa.key, "=="); j > 0 && strings.HasPrefix(pa.key, "const(") && !strings.HasPrefix(pa.key, "(") {
 			lhs := strings.TrimSuffix(strings.TrimPrefix(pa.key[:j], "const("), ")")
 			truth := lhs == pa.key[j+2:]
